@@ -193,6 +193,12 @@ def eval_images(state, arg):
                       "nested": os.path.join(tmp, "n1", "n2", "n3"), "ctor": os.path.join(tmp, "c", "d")}[kind]
             if kind == "existing":
                 os.mkdir(folder)
+                # stale files of the same names: same size / other size, other bytes
+                for n, blob in exp.items():
+                    if rng.random() < 0.7:
+                        stale = bytes((b + 1) % 256 for b in blob) if rng.random() < 0.6 else blob + b"x"
+                        open(os.path.join(folder, n), "wb").write(stale)
+                        res["features"].append("stale_file")
             res["features"].append("folder:" + kind)
             before = set(os.listdir(tmp))
             if kind == "ctor":
